@@ -15,7 +15,7 @@ EXTENDS Rebase, IOUtils
 Recs == JsonDeserialize(IOEnv.TRACE_FILE)
 
 VARIABLES l, phase
-tvars == <<obj, a, b, repr, path, start, l, phase>>
+tvars == <<obj, a, den, magn, b, repr, path, start, l, phase>>
 
 RI(x)  == <<x, 1>>
 RV3(p) == <<RI(p[1]), RI(p[2]), RI(p[3])>>
@@ -23,21 +23,24 @@ RV3(p) == <<RI(p[1]), RI(p[2]), RI(p[3])>>
 \* does the model's observation equal what the real code showed?
 Matches(o, r) ==
   IF r.obj = "vector"
-  THEN /\ r.post.a = RV3(o.a) /\ r.post.b = RV3(o.b)            \* Cartesian data of both vectors
-       /\ r.post.dot = RI(o.dot) /\ r.post.msq = RI(o.msq)      \* dot_vectors / vector_magnitude^2 in the current system
+  THEN /\ r.post.a = o.a /\ r.post.b = RV3(o.b)                 \* Cartesian data of both vectors
+       /\ r.post.dot = o.dot                                    \* dot_vectors in the current system
+       /\ r.post.mag = o.mag /\ r.post.msq = o.msq              \* vector_magnitude (itself, not only its square)
+       /\ r.post.unit = o.unit /\ r.post.proj = o.proj          \* vector_unit, project_vector, projected to Cartesian
   ELSE /\ r.post.value = RI(o.value)                            \* value of the field at the physical point
        /\ {r.post.refused[i] : i \in DOMAIN r.post.refused} = {k \in Reprs : o.apply[k] = "refused"}
 
 TInit == \E i \in DOMAIN Recs :
            /\ l = i /\ phase = "pre"
-           /\ obj = Recs[i].obj /\ a = Recs[i].a /\ b = Recs[i].b /\ repr = Recs[i].repr
+           /\ obj = Recs[i].obj /\ a = Recs[i].a /\ den = Recs[i].den /\ magn = Recs[i].magn
+           /\ b = Recs[i].b /\ repr = Recs[i].repr
            /\ path = <<>>
            /\ start = [repr |-> repr, a |-> a, b |-> b, obs |-> Observation]
 
 TNext == /\ phase = "pre" /\ phase' = "post" /\ UNCHANGED l
          /\ LET r == Recs[l] IN
               /\ \/ r.act = "rebase" /\ Rebase(r.arg)
-                 \/ r.act = "scale" /\ \E k \in Scales : ToString(k) = r.arg /\ Scale(k)
+                 \/ r.act = "scale" /\ \E k \in Scales : Scale(k) /\ path'[1].arg = r.arg
               /\ repr' = r.post_repr
               /\ path'[1].ok = ~r.refused
               /\ Matches(Observation', r)
